@@ -63,6 +63,8 @@ type Scenario struct {
 	RacePkgs []string
 	// RaceIgnoreFuncs: regexp of function names excluded (configuration calls the property does not cover).
 	RaceIgnore *regexp.Regexp
+	// Quanta: virtual CPU time charged per yield (choices); nil = simulator default.
+	Quanta []int64
 	// Cells > 0: the scenario enumerates that many cells exhaustively (one run each)
 	// before seeded sampling of the other scenarios starts.
 	Cells int
@@ -112,7 +114,7 @@ func findScenario(prop, name string) *Scenario {
 func runOne(sc *Scenario, seed uint64, replay *simrt.Tape, trace bool, cell int) *RunReport {
 	rc := &RunCtx{Cell: cell}
 	before := simrt.RaceErrors()
-	cfg := simrt.Config{Seed: seed, Replay: replay, MaxSteps: sc.MaxSteps, TraceOn: trace}
+	cfg := simrt.Config{Seed: seed, Replay: replay, MaxSteps: sc.MaxSteps, TraceOn: trace, Quanta: sc.Quanta}
 	res := simrt.Run(cfg, func() { sc.Body(rc) })
 	rep := &RunReport{Scenario: sc.Name, Cell: cell, Seed: seed, Tape: res.Tape, Steps: res.Steps, Switches: res.Switches,
 		VirtualNs: res.VirtualNs, Policy: res.Policy, Faults: res.Faults, Probes: res.Probes, Trace: res.Trace}
